@@ -541,6 +541,8 @@ class Interp:
                     if any(b.split(".")[-1] in ("Enum", "IntEnum", "Flag") for b in bases):
                         return EnumVal(v.name, name)
                     return self.eval(st.value, self.module_env(v.module))
+                if isinstance(st, ast.AnnAssign) and isinstance(st.target, ast.Name) and st.target.id == name and st.value is not None:
+                    return self.eval(st.value, self.module_env(v.module))
             fi = source.find_method(v.module, v.name, name)
             if fi is not None:
                 decos = [ast.unparse(d) for d in fi.node.decorator_list]
@@ -907,7 +909,24 @@ class Interp:
         return d
 
     def e_JoinedStr(self, e, env):
-        return "<fstring>"
+        """f-strings: evaluated when every interpolated value is a plain string/integer/path (file names are built this way),
+        otherwise the placeholder "<fstring>" (messages are dropped)."""
+        import pathlib
+        parts = []
+        for v in e.values:
+            if isinstance(v, ast.Constant):
+                parts.append(str(v.value))
+                continue
+            if isinstance(v, ast.FormattedValue):
+                try:
+                    val = self.eval(v.value, env)
+                except (PyExc, Undecided):
+                    return "<fstring>"
+                if isinstance(val, (str, int, pathlib.PurePath)) and not isinstance(val, bool) and v.format_spec is None and v.conversion == -1:
+                    parts.append(str(val))
+                    continue
+            return "<fstring>"
+        return "".join(parts)
 
     def e_Lambda(self, e, env):
         return Closure(e, env, env.module, f"<lambda@{e.lineno}>")
@@ -1003,6 +1022,8 @@ class Interp:
         return dict(zip(keys, vals))
 
     def e_Call(self, e, env):
+        if isinstance(e.func, ast.Name) and e.func.id == "locals" and not e.args:
+            return dict(env.vars)
         f = self.eval(e.func, env)
         args = []
         for a in e.args:
